@@ -415,12 +415,29 @@ func All() []*Scenario {
 	}
 	// network
 	{
-		lfP, lwP := laterG("show later~", promptPriv)
 		mode := func(s *Session) string {
 			var m string
 			s.Conn.Do(func() { m = s.CLI.Mode })
 			return m
 		}
+		// the follow-up of the network scenarios goes through the network driver and also reports
+		// the mode in which the device received the command line
+		lfP := func(s *Session) (string, error) {
+			r, err := s.N.SendCommand("show later~", opoptions.WithTimeoutOps(5*time.Second))
+			if err != nil {
+				return "", err
+			}
+			at := "?"
+			s.Conn.Do(func() {
+				for _, l := range s.CLI.Lines {
+					if l.Line == "show later~" {
+						at = l.Mode
+					}
+				}
+			})
+			return "received-at=" + at + " " + r.Result, nil
+		}
+		lwP := "received-at=privilege-exec " + ref("show later~", promptPriv, true)
 		l = append(l, &Scenario{Name: "n.acquire-1hop-auth", Driver: "network", Quick: true, New: newNetwork("exec"), Pre: openG,
 			Op: func(s *Session, _ ...util.Option) (string, error) {
 				err := s.N.AcquirePriv("privilege-exec")
@@ -430,7 +447,7 @@ func All() []*Scenario {
 			Op: func(s *Session, _ ...util.Option) (string, error) {
 				err := s.N.AcquirePriv("configuration")
 				return "mode=" + mode(s), err
-			}})
+			}, Later: lfP, LaterWant: lwP})
 		l = append(l, &Scenario{Name: "n.sendcommand-implicit", Driver: "network", Quick: true, PerOp: false, PrivErrOK: true, UserCmd: "show version!", New: newNetwork("exec"), Pre: openG,
 			Op: func(s *Session, o ...util.Option) (string, error) {
 				r, err := s.N.SendCommand("show version!", o...)
@@ -439,14 +456,14 @@ func All() []*Scenario {
 				}
 				return "mode=" + mode(s) + " " + r.Result, nil
 			}, Later: lfP, LaterWant: lwP})
-		l = append(l, &Scenario{Name: "n.sendconfigs", Driver: "network", New: newNetwork("privilege-exec"), Pre: openG,
+		l = append(l, &Scenario{Name: "n.sendconfigs", Driver: "network", Quick: true, New: newNetwork("privilege-exec"), Pre: openG,
 			Op: func(s *Session, o ...util.Option) (string, error) {
 				m, err := s.N.SendConfigs([]string{"set a!", "set b%"}, o...)
 				if err != nil {
 					return "", err
 				}
 				return "mode=" + mode(s) + " " + m.JoinedResult(), nil
-			}})
+			}, Later: lfP, LaterWant: lwP})
 		l = append(l, &Scenario{Name: "n.sendcommand-after-config", Driver: "network", PrivErrOK: true, UserCmd: "show version!", New: newNetwork("privilege-exec"),
 			Pre: func(s *Session) error {
 				if err := openG(s); err != nil {
